@@ -54,7 +54,10 @@ def check(ctx):
 
     def faithful(o):
         from .clone_common import clone_provenance
-        clone_provenance(ctx, o, ('fields',))
+        from .c02 import _Only
+        # estimate / spent are values the scheduler computes itself (they are not among the things C06 promises to carry over:
+        # ids, hierarchy, order, links, custom attributes); a copy that loses them is C04's / C10's finding
+        clone_provenance(ctx, _Only(o, drop=("__estimate", "__spent")), ('fields',))
     ctx.guarded(o, faithful)
 
     o = ctx.ob('scheduler_frame', 'R9a',
@@ -257,13 +260,33 @@ def frame(ctx, o, eff: Effects):
                 if fld == S['resources'] and root == 'self':
                     o.site(f, f.node, "resource table")
                     continue
+                if root == 'self' and fld in _per_call_state(ctx, S):
+                    o.site(f, f.node, f"self.{unmangle(fld)}: re-initialised by every calc before the pass runs (per-call state)")
+                    continue
+                if root.startswith('param:') and root[6:] in f.params and \
+                        base(ctx.typer.expr_type(ast.Name(id=root[6:], ctx=ast.Load()), f)) == '_ResourceUsage':
+                    o.site(f, f.node, f"ledger state {unmangle(fld)} (the ledger object is allocated per calc)")
+                    continue
                 if fld == '<container>' and root.startswith('param:') and root[6:] in f.params[4:5] + [f.params[-1]]:
                     o.site(f, f.node, "memo list")
                     continue
                 if fld == '<container>' and root.startswith('param:calculated'):
                     o.site(f, f.node, "memo list")
                     continue
+                if key == 'pass_' and _memo_field_of(ctx, S) == (fld, root):
+                    o.site(f, f.node, "memo list (field of the per-call parameter object)")
+                    continue
                 chain = ' -> '.join(eff.explain(f, (fld, root))[-2:])
+                if isinstance(via, tuple) and via and not getattr(via[0], 'resolved', True):
+                    # the effect analysis could not type the receiver of `<x>.append(..)` / `.add(..)` and assumed every package method
+                    # of that name: a guess, not a located write
+                    rcv = via[0].node.func.value if isinstance(via[0].node, ast.Call) and isinstance(via[0].node.func, ast.Attribute) else None
+                    if isinstance(rcv, ast.Attribute) and isinstance(rcv.value, ast.Name) and rcv.value.id == f.params[0] and \
+                            rcv.attr in _per_call_state(ctx, S):
+                        o.site(f, f.node, f"method of the per-call container self.{unmangle(rcv.attr)}")
+                    else:
+                        o.undecided(f, f.node, f"{unmangle(fld)}@{root}", f"possible write through a call whose receiver could not be typed: {chain}")
+                    continue
                 if fld == '<dynamic>':
                     # setattr(obj, name, value): decided when every setattr of this function names one of the four data fields
                     from .c07 import _stores_elementwise
@@ -292,6 +315,37 @@ def frame(ctx, o, eff: Effects):
                         o.refute(f, ci.node, ci.node, f"the scheduler calls {t.qual}: the structure of the result must be that of the clone")
 
 
+def _per_call_state(ctx, S):
+    """attributes of the scheduler that every calc re-initialises (fresh container / constant) on every path before it runs the
+    pass: state kept on the object only for the duration of one call - later calls do not see what an earlier one left"""
+    prog = ctx.prog
+    calc = prog.func(S['calc'])
+    cfg = cfg_of(calc)
+    pcalls = [cfg.node_containing(c) for c in facts.calls_named(calc, prog.func(S['pass_']).name)]
+    out = set()
+    for st, tgt, val in facts.attr_stores(calc):
+        if isinstance(tgt.value, ast.Name) and tgt.value.id == calc.params[0] and tgt.attr != S['resources'] and not isinstance(st, ast.AugAssign):
+            fresh_v = isinstance(val, ast.Constant) or match("set()", val) or match("[]", val) or match("{}", val) or match("dict()", val) or \
+                match("list()", val) or match("_ResourceUsage()", val)
+            sn = cfg.node_of(st)
+            if fresh_v and sn is not None and pcalls and all(p_ is not None and cfg.dominates(sn, p_) for p_ in pcalls):
+                out.add(tgt.attr)
+    return out
+
+
+def _memo_field_of(ctx, S):
+    """(field, root) of the memo when it is a field of a parameter object of the pass (`run.scheduled_ids`)"""
+    try:
+        ps = PassShape(ctx, S)
+    except Exception:
+        return None
+    if '.' in ps.memo and not ps.memo_on_self and not getattr(ps, 'memo_on_task', None):
+        base_, attr = ps.memo.split('.', 1)
+        if base_ in ps.f.params and base_ != ps.f.params[0] and base_ != ps.task and '.' not in attr:
+            return (attr, 'param:' + base_)
+    return None
+
+
 def fresh(ctx, o, eff: Effects):
     prog = ctx.prog
     for S in BOTH:
@@ -300,6 +354,23 @@ def fresh(ctx, o, eff: Effects):
         pname = prog.func(S['pass_']).name
         for c in facts.calls_named(calc, pname):
             if len(c.args) < 4:
+                # ledger and memo travelling in one per-call parameter object built by calc: `run = _Run(usage=_ResourceUsage(), ids=[])`
+                ps_ = PassShape(ctx, S)
+                obj = ex.expand(c.args[2]) if len(c.args) == 3 else None
+                memo = sched.pass_state_arg(prog, ps_, c, ex, ps_.memo) if obj is not None else None
+                if isinstance(obj, ast.Call) and isinstance(obj.func, ast.Name) and obj.func.id in prog.classes and memo is not None:
+                    vals = [ex.expand(v) if isinstance(v, ast.Name) else v for v in list(obj.args) + [k.value for k in obj.keywords]]
+                    leds = [v for v in vals if match("_ResourceUsage()", v)]
+                    if len(leds) == 1:
+                        o.site(calc, c, f"ledger = _ResourceUsage() inside the per-call object {obj.func.id}(..)")
+                    else:
+                        o.undecided(calc, c, c.args[2], f"no single `_ResourceUsage()` among the fields of the per-call object `{src(obj)[:60]}`")
+                    if match("[]", memo) or match("list()", memo) or match("set()", memo):
+                        o.site(calc, c, "memo local to calc (field of the per-call object)")
+                    else:
+                        o.refute(calc, c, c.args[2], f"the memo handed to the pass is `{src(memo)}`, not a list allocated by this call: tasks "
+                                                     f"scheduled by an earlier calc are skipped")
+                    continue
                 o.undecided(calc, c, c, "unexpected pass call")
                 continue
             led, memo = ex.expand(c.args[2]), ex.expand(c.args[3])
@@ -327,6 +398,9 @@ def fresh(ctx, o, eff: Effects):
             for w in eff.direct_writes(f):
                 if w.root == 'self':
                     if w.field == S['resources'] and w.kind == 'mutate:setdefault':
+                        continue
+                    if w.field in _per_call_state(ctx, S):
+                        o.site(f, w.node, f"self.{unmangle(w.field)}: per-call state, re-initialised by calc before the pass runs")
                         continue
                     o.refute(f, w.node, w.node, f"scheduler state `{unmangle(w.field)}` is changed during calc ({w.kind}): repeated calls are not independent")
 
